@@ -16,6 +16,14 @@ def key(rng):
 
 def init(rng, used=None):
     n = rng.randrange(0, 7)
+    if rng.random() < 0.08:
+        # long lists with few names and distinguishable values: a sort that is only stable on short ranges shows here
+        n = rng.randrange(17, 45)
+        names = rng.sample([b"a", b"b", b"c", b"z", b"aa", b"%61", b"\xc3\xa9"], rng.choice([1, 2, 3]))
+        parts = [rng.choice(names) + b"=" + str(i).encode() for i in range(n)]
+        if used is not None:
+            used.extend((p.split(b"=")[0], p.split(b"=")[1]) for p in parts)
+        return b"&".join(parts)
     parts = []
     plain = [b"a", b"b", b"1", b"2", b"3", b"z", b"aa"]
     for _ in range(n):
@@ -32,6 +40,8 @@ def init(rng, used=None):
     s = b"&".join(parts)
     if rng.random() < 0.2:
         s = b"?" + s
+        if rng.random() < 0.3:
+            s = b"?" + s      # only one leading '?' is dropped
     if rng.random() < 0.2:
         s = s + b"&"
     if rng.random() < 0.1:
